@@ -497,6 +497,63 @@ where
     }
 }
 
+/// Entry points for the conformance harness (cfg `radicle_verif` only): the two steps of the
+/// connection life cycle that otherwise need a live socket. Everything else the harness uses is
+/// the public [`reactor::Handler`] and [`Iterator`] interface.
+#[cfg(radicle_verif)]
+impl<D, S, G> Wire<D, S, G>
+where
+    D: service::Store,
+    S: WriteStorage + 'static,
+    G: crypto::signature::Signer<crypto::Signature> + Ecdh<Pk = NodeId>,
+{
+    /// The tail of `SessionEvent::Established`: register an established peer and tell the service.
+    pub fn verif_established(
+        &mut self,
+        id: ResourceId,
+        nid: NodeId,
+        addr: NetAddr<HostName>,
+        link: Link,
+    ) {
+        self.peers
+            .insert(id, Peer::connected(nid, addr.clone(), link));
+        self.service.connected(nid, addr.into(), link);
+    }
+
+    /// `handover_transport` for a disconnecting peer, without the transport object.
+    pub fn verif_handover(&mut self, id: ResourceId) -> bool {
+        match self.peers.entry(id) {
+            Entry::Occupied(e) => match e.get() {
+                Peer::Disconnecting {
+                    nid, reason, link, ..
+                } => {
+                    if let Some(nid) = nid {
+                        self.service.disconnected(*nid, *link, reason);
+                    }
+                    e.remove();
+                    true
+                }
+                Peer::Connected { .. } => false,
+            },
+            Entry::Vacant(_) => false,
+        }
+    }
+
+    /// Whether the peer with the given resource id is connected / disconnecting / unknown.
+    pub fn verif_peer_state(&self, id: ResourceId) -> &'static str {
+        match self.peers.0.get(&id) {
+            Some(Peer::Connected { .. }) => "connected",
+            Some(Peer::Disconnecting { .. }) => "disconnecting",
+            None => "none",
+        }
+    }
+
+    /// Read access to the service.
+    pub fn verif_service(&self) -> &Service<D, S, G> {
+        &self.service
+    }
+}
+
 impl<D, S, G> reactor::Handler for Wire<D, S, G>
 where
     D: service::Store + Send,
